@@ -217,6 +217,14 @@ func TestC18(t *testing.T) {
 			r.Label("replay-skipped:not-a-case")
 			continue
 		}
+		if c.Level == -1 {
+			if msg := c18History(c); msg != "" {
+				r.RecordFailure("interference", c, p, msg)
+				t.Fatalf("replay %s: %s", p, msg)
+			}
+			r.Label("replayed")
+			continue
+		}
 		if o := c18Eval(r, c); o.msg != "" {
 			r.RecordFailure("interference", c, p, o.msg)
 			t.Fatalf("replay %s: %s", p, o.msg)
@@ -232,18 +240,108 @@ func TestC18(t *testing.T) {
 			r.Violation(t, "interference", c, "%s", o.msg)
 		}
 	})
+	// History independence: "no mutable state shared between instances" also means that what an instance produces
+	// does not depend on what other instances did BEFORE it (pooled or cached scratch state that is handed from one
+	// instance to the next). Each case runs the victim pipeline alone first, then 1..4 other pipelines over the same
+	// transform on data chosen to take that transform's early-exit / error paths (malformed UTF-8, truncated
+	// sequences, hostile headers, incompressible bytes), then the victim again, sequentially: both victim runs must
+	// be byte-identical.
+	r.Rapid(t, "history-independence", 120, 6000, func(t *rapid.T) {
+		focus := rapid.SampledFrom(gen.TransformNames[1:]).Draw(t, "focus")
+		if rapid.IntRange(0, 2).Draw(t, "detectors") != 0 {
+			// transforms with content detection and early exits, two times out of three
+			focus = rapid.SampledFrom([]string{"UTF", "TEXT", "EXE", "MM", "DNA", "PACK", "RLT", "ROLZX", "LZ"}).Draw(t, "focus2")
+		}
+		chain := focus
+		if rapid.Bool().Draw(t, "second") {
+			chain = focus + "+" + rapid.SampledFrom(gen.TransformNames[1:]).Draw(t, "second")
+		}
+		mk := func(label string, kinds []int, wellFormed bool) C18Pipe {
+			bs := uint(rapid.SampledFrom([]int{1024, 4096, 16384, 65536}).Draw(t, label+".bs"))
+			p := C18Pipe{Cfg: gen.Config{Transform: chain, Entropy: rapid.SampledFrom([]string{"NONE", "HUFFMAN", "ANS0"}).Draw(t, label+".en"), BlockSize: bs,
+				Jobs: uint(rapid.IntRange(1, 3).Draw(t, label+".jobs")), Checksum: 0, HintClass: "absent"}, ReadJobs: uint(rapid.IntRange(1, 3).Draw(t, label+".rjobs"))}
+			p.Data = gen.DrawRecipe(t, 3*int(bs), label+".data")
+			if kinds != nil && rapid.IntRange(0, 3).Draw(t, label+".aff") != 0 {
+				p.Data.Kind = rapid.SampledFrom(kinds).Draw(t, label+".kind")
+			}
+			switch {
+			case wellFormed:
+				// the victim: the transform's favourite kind, well formed, so that the stage is applied and the comparison means something
+				p.Data.Edge = 0
+				if kinds != nil {
+					p.Data.Kind = kinds[0]
+				}
+				if p.Data.Kind == gen.KUTF8 {
+					p.Data.P1 = 3 * rapid.IntRange(0, 200).Draw(t, label+".alphabet")
+				}
+				p.Data.Len = max(p.Data.Len, 1500)
+			default:
+				// the others: same family, but decorated / malformed so that early exits and error paths run
+				if rapid.Bool().Draw(t, label+".edged") {
+					p.Data.Edge = rapid.IntRange(1, gen.NEdges-1).Draw(t, label+".edge")
+				}
+				if p.Data.Kind == gen.KUTF8 && rapid.Bool().Draw(t, label+".cut") {
+					p.Data.P1 = 40001 + 2*rapid.IntRange(0, 14999).Draw(t, label+".cutSeed") // truncated code points inside the text
+				}
+			}
+			return p
+		}
+		aff := affinity(focus)
+		victim := mk("victim", aff, true)
+		var others []C18Pipe
+		for i, n := 0, rapid.IntRange(1, 4).Draw(t, "nothers"); i < n; i++ {
+			others = append(others, mk(fmt.Sprintf("other%d", i), aff, false))
+		}
+		c := C18Case{Pipes: append([]C18Pipe{victim}, others...), Level: -1}
+		r.Inflight("interference", c)
+		defer r.InflightDone()
+		data := victim.Data.Expand()
+		st1, err1 := victim.compress(data, victim.Cfg)
+		for _, o := range others {
+			od := o.Data.Expand()
+			if st, err := o.compress(od, o.Cfg); err == nil {
+				o.decompress(st, o.Cfg, max(o.ReadJobs, 1))
+			}
+		}
+		st2, err2 := victim.compress(data, victim.Cfg)
+		nontrivial := false
+		if err1 == nil {
+			_, nontrivial, _ = streamLabels(st1, victim.Cfg)
+		}
+		r.Eval(vrt.HashOf(c), nontrivial, "history-independence", "focus:"+focus)
+		if nontrivial && r.WantSample() {
+			r.Sample(map[string]any{"mode": "history-independence", "victim": victim.Cfg.String() + " | " + victim.Data.String(), "others_before_second_run": len(others)})
+		}
+		if (err1 == nil) != (err2 == nil) {
+			r.Violation(t, "interference", c, "history dependence: pipeline 0 (%s) run alone: err=%v; run again after %d other instances had worked: err=%v", victim.Cfg.String(), err1, len(others), err2)
+		}
+		if err1 != nil {
+			return
+		}
+		if !bytes.Equal(st1, st2) {
+			r.Violation(t, "interference", c, "history dependence: pipeline 0 (%s) produced different compressed bytes after %d other instances had worked in the same process (first difference at %d of %d)",
+				victim.Cfg.String(), len(others), firstDiff(st1, st2), len(st1))
+		}
+		out, err := victim.decompress(st2, victim.Cfg, max(victim.ReadJobs, 1))
+		if err != nil || !bytes.Equal(out, data) {
+			// the pair does not round-trip at all: C01's business, unless the first run did
+			if out1, e1 := victim.decompress(st1, victim.Cfg, 1); e1 == nil && bytes.Equal(out1, data) {
+				r.Violation(t, "interference", c, "history dependence: pipeline 0 (%s) decodes when run first but not after other instances (err=%v)", victim.Cfg.String(), err)
+			}
+		}
+	})
 	// BWT above 4 MiB: the inverse transform spawns helper goroutines when the block task owns several jobs, which
 	// happens only when the header carries the size (block count known) and there are more reader jobs than
 	// blocks. Job counts that split the 8 chunks unevenly (3, 5, 6, 7) and odd chunk sizes are included, and one
 	// pipeline in two runs with GOMAXPROCS(1) (see C18Case.Procs).
-	r.Rapid(t, "bwt-helpers", 2, 48, func(t *rapid.T) {
+	r.Rapid(t, "bwt-helpers", 8, 64, func(t *rapid.T) {
 		var c C18Case
 		np := rapid.IntRange(1, 2).Draw(t, "np")
 		for i := 0; i < np; i++ {
 			ln := 4<<20 + rapid.IntRange(1, 1<<19).Draw(t, "len")
 			c.Pipes = append(c.Pipes, C18Pipe{Cfg: gen.Config{Transform: rapid.SampledFrom([]string{"BWT", "BWT", "TEXT+BWT"}).Draw(t, "tr"), Entropy: "NONE", BlockSize: 8 << 20,
 				Jobs: uint(rapid.IntRange(1, 8).Draw(t, "jobs")), Checksum: 32, Hint: int64(ln), HintClass: "exact"},
-				Data: gen.Recipe{Kind: gen.KText, Len: ln, Seed: uint64(i)}, ReadJobs: uint(rapid.SampledFrom([]int{2, 3, 4, 5, 6, 7, 8, 16}).Draw(t, "rjobs"))})
+				Data: gen.Recipe{Kind: gen.KText, Len: ln, Seed: uint64(i)}, ReadJobs: uint(rapid.SampledFrom([]int{3, 5, 6, 7, 3, 5, 6, 7, 2, 4, 8, 16}).Draw(t, "rjobs"))})
 		}
 		c.Perturb, c.Level = 5, rapid.IntRange(0, 1).Draw(t, "level")
 		if rapid.Bool().Draw(t, "seq") {
@@ -253,4 +351,48 @@ func TestC18(t *testing.T) {
 			r.Violation(t, "interference", c, "%s", o.msg)
 		}
 	})
+}
+
+// affinity lists the data kinds a transform's detector accepts (nil: any).
+func affinity(tr string) []int {
+	switch tr {
+	case "TEXT":
+		return []int{gen.KText, gen.KXML, gen.KUTF8}
+	case "UTF":
+		return []int{gen.KUTF8, gen.KUTF8, gen.KText}
+	case "EXE":
+		return []int{gen.KExeX86, gen.KExeARM}
+	case "MM":
+		return []int{gen.KWav, gen.KBmp}
+	case "DNA", "PACK":
+		return []int{gen.KDNA, gen.KSmallAlpha, gen.KNumeric}
+	case "RLT", "ZRLT":
+		return []int{gen.KRuns, gen.KZeros, gen.KLimits}
+	case "ROLZ", "ROLZX", "LZ", "LZX", "LZP":
+		return []int{gen.KText, gen.KRepeat, gen.KDNA, gen.KLimits}
+	}
+	return nil
+}
+
+// c18History replays a history-independence case (pipe 0 = victim, others run in between).
+func c18History(c C18Case) string {
+	if len(c.Pipes) < 2 {
+		return ""
+	}
+	v := c.Pipes[0]
+	data := v.Data.Expand()
+	st1, err1 := v.compress(data, v.Cfg)
+	for _, o := range c.Pipes[1:] {
+		if st, err := o.compress(o.Data.Expand(), o.Cfg); err == nil {
+			o.decompress(st, o.Cfg, max(o.ReadJobs, 1))
+		}
+	}
+	st2, err2 := v.compress(data, v.Cfg)
+	if (err1 == nil) != (err2 == nil) {
+		return fmt.Sprintf("history dependence: run alone err=%v, after the others err=%v", err1, err2)
+	}
+	if err1 == nil && !bytes.Equal(st1, st2) {
+		return fmt.Sprintf("history dependence: pipeline 0 (%s) produced different compressed bytes after %d other instances had worked (first difference at %d)", v.Cfg.String(), len(c.Pipes)-1, firstDiff(st1, st2))
+	}
+	return ""
 }
